@@ -140,7 +140,10 @@ class Parameter:
 
         # now check if the desired success rate is within 2-sigma
         if ~(mu - 2 * std < self.target_rate < mu + 2 * std):
-            adj = (log(self.target_rate) / log(mu)) ** self.adjust_rate
+            if mu < 1.0:
+                adj = (log(self.target_rate) / log(mu)) ** self.adjust_rate
+            else:  # every proposal was accepted with certainty - use the largest increase
+                adj = 3.0
             adj = min(adj, 3.0)
             adj = max(adj, 0.1)
             self.adjust_sigma(adj)
